@@ -220,15 +220,25 @@ func checkC06Required(c *Ctx, n int) {
 				want = "the required arguments " + joinAnd(names) + " were not provided"
 			}
 		}
-		cs.Ops = []Op{{Kind: "parse", Args: argv}}
+		var warm []string
+		cs.Ops, warm = withWarmup(c, real, argv)
 		cs.Description = describeOps(cs)
 		c.RunCases([]*Case{cs}, func(cr *CaseResult) {
 			c.classifyCase(cr)
-			for _, o := range parseBlocks(cr) {
+			blocks := parseBlocks(cr)
+			if len(blocks) > 1 {
+				// (the earlier call is not judged)
+				blocks = blocks[len(blocks)-1:]
+			}
+			for _, o := range blocks {
 				if o.panic != "" {
 					continue
 				}
 				in := map[string]interface{}{"case": cs.Description, "argv": argv, "active_command": active.Name, "positional_words": k, "missing_options": missing}
+				if warm != nil {
+					in["earlier_call_on_the_same_parser"] = warm
+					c.Class("c06/required: after an earlier call on the same parser")
+				}
 				var ok bool
 				var wantS string
 				if want == "" {
